@@ -22,7 +22,7 @@ ASSUMPTIONS = ["constants-backed levels follow FindInConstants as documented (li
                "the unfolding of the search is taken from spil (C07 owns it)"]
 
 JUNK_KINDS = ["misnamed-separator", "unknown-extension", "backup-suffix", "desynchronised-field", "stray-folder", "stray-file",
-              "sidecar-like", "hidden-sidecar", "hidden-file", "other-type-shape"]
+              "sidecar-like", "hidden-sidecar", "hidden-file", "other-type-shape", "trailing-whitespace"]
 
 
 def junk_for(root, kinds):
@@ -35,6 +35,15 @@ def junk_for(root, kinds):
         first_file = sorted(fs)[0] if fs else None
         first_dir = sorted(ds)[0] if ds else None
         for k in kinds:
+            if k == "trailing-whitespace":
+                # a valid name followed by a blank / a line feed is another name (as in C01: 'ma\n' is not 'ma')
+                if first_file:
+                    stem, _, ext = first_file.rpartition(".")
+                    swap = {"ma": "mb", "mb": "ma", "mov": "mp4", "mp4": "mov", "abc": "vdb", "vdb": "abc"}.get(ext, ext)
+                    out += [(J(first_file + " "), "f"), (J(first_file + "\n"), "f"), (J(stem + "." + swap + " "), "f")]
+                if first_dir:
+                    out += [(J(first_dir + " "), "d"), (J(" " + first_dir), "d")]
+                continue
             if k == "stray-folder":
                 out.append((J("stray_folder"), "d"))
             elif k == "stray-file":
@@ -80,7 +89,11 @@ def conforming_filtered(W, junk):
         ok = True
         for n in W.names:
             try:
-                if Sid(path=os.path.join(W.prs[n].root(), rel), config=n):
+                p = os.path.join(W.prs[n].root(), rel)
+                x = Sid(path=p, config=n)
+                # conforming = the reference rendering of the Sid it resolves to is this very path (a resolution that does not
+                # own the path - C06's subject - does not make the name a valid entity)
+                if x and W.prs[n].render(x.type, x.fields) == p:
                     ok = False
             except Exception:  # noqa  (C06 owns resolution failures)
                 pass
